@@ -54,7 +54,7 @@ M('C03', 'done-keeps-kind', COLL, '                Content::Done(return_) => {\n
   '                Content::Done(return_) => {\n                    Ok(Some(CollectorResult::Return(return_)))\n                }\n                Content::NeedMore(state) => {\n                    self.kind = Some(Kind::Return(state));\n                    Ok(None)\n                }\n            },\n            Some(Kind::Get(state)) => match state.collect_body', 'R03.1')
 M('C03', 'body-arm-constant-channel', CST, '            AMQPFrame::Body(n, body) => {\n                let slot = slot_get_mut(inner, n)?;', '            AMQPFrame::Body(n, body) => {\n                let _ = n;\n                let slot = slot_get_mut(inner, 1)?;', 'R03.5')
 M('C03', 'get-exchange-routing-key-swapped', 'src/delivery.rs', '            exchange: get_ok.exchange,\n            routing_key: get_ok.routing_key,\n            body,\n            properties,\n        }\n    }\n\n    /// The server-assigned', '            exchange: get_ok.routing_key,\n            routing_key: get_ok.exchange,\n            body,\n            properties,\n        }\n    }\n\n    /// The server-assigned', 'R03.4')
-M('C03', 'blocking-send-to-consumer', CST, '    match tx.try_send(item) {\n        Ok(()) => Ok(()),\n        Err(TrySendError::Full(_)) => {', '    if false { let _ = tx.send(unreachable!()); }\n    match tx.try_send(item) {\n        Ok(()) => Ok(()),\n        Err(TrySendError::Full(_)) => {', 'R03.6')
+M('C03', 'blocking-send-to-consumer', CST, '    match tx.try_send(item) {\n        Ok(()) => Ok(()),\n        Err(TrySendError::Full(_)) => {', '    if tx.is_empty() {\n        return tx.send(item).map_err(|_| Error::EventLoopClientDropped);\n    }\n    match tx.try_send(item) {\n        Ok(()) => Ok(()),\n        Err(TrySendError::Full(_)) => {', 'R03.6')
 # ------------------------------------------------------------------------------------------------ C04
 M('C04', 'bind-awaits-unbind-ok', 'src/channel.rs', 'self.call::<_, QueueBindOk>(bind).map(|_ok| ())', 'self.call::<_, QueueUnbindOk>(bind).map(|_ok| ())', 'R04.3')
 M('C04', 'declare-counts-swapped', 'src/channel.rs', '            Some(ok.message_count),\n            Some(ok.consumer_count),\n        ))\n    }\n\n    /// Asynchronously', '            Some(ok.consumer_count),\n            Some(ok.message_count),\n        ))\n    }\n\n    /// Asynchronously', 'R04.3')
